@@ -23,6 +23,7 @@ package vault
 // The file also holds the scheduling loop shared with the C18 harness (identifiers prefixed c19).
 
 import (
+	"fmt"
 	"encoding/json"
 	"strings"
 	"testing"
@@ -404,10 +405,59 @@ func c19RunCase(t *testing.T, out *vh.Out, cs c19Case, rng *vh.Rand) {
 	out.Op(vh.Catch(func() string { return c19Issue(c, ak, tok, 99) }), "after", ak)
 }
 
+// c19SealDenied: the use-counting entry points OUTSIDE handleRequest — Core.sealInitCommon (sys/seal) — with a token
+// that has no permission to seal: n-1 uses are spent on leased secrets, the last one on the denied seal request. The
+// token has then authorised n requests: it must be revoked together with the leases it obtained, like after a last
+// use that went through handleRequest. Op line: sealdenied <n> => <class of the seal request>|token:<state>|leases:<issued>/<revoked>
+func c19SealDenied(t *testing.T, out *vh.Out) {
+	for n := 1; n <= 3; n++ {
+		_, c, root, rec := c19Setup(t)
+		tok := vhCreateToken(t, c, root, map[string]any{"ttl": "1h", "policies": []string{"default", "c19"}, "num_uses": n})
+		salted := c19Salted(t, c, tok)
+		out.Reset()
+		for i := 0; i < n-1; i++ {
+			if cl := c19Issue(c, "lease", tok, i); cl != "ok+secret" {
+				t.Fatalf("c19 sealdenied set-up lease %d: %s", i, cl)
+			}
+		}
+		req := &logical.Request{Operation: logical.UpdateOperation, Path: "sys/seal", ClientToken: tok}
+		req.SetTokenEntry(nil)
+		err := c.SealWithRequest(vhRootCtx(), req)
+		cl := "ok"
+		switch {
+		case err != nil && strings.Contains(err.Error(), "permission denied"):
+			cl = "denied"
+		case err != nil:
+			cl = "err"
+		}
+		if c.Sealed() {
+			cl += "+sealed"
+		}
+		state := "sealed"
+		if !c.Sealed() {
+			for i := 0; i < 200; i++ { // the revocation is synchronous; the leases' backend calls follow
+				if _, _, rv := rec.Snapshot(); len(rv) >= n-1 {
+					break
+				}
+				time.Sleep(5 * time.Millisecond)
+			}
+			state = c19TokenState(c, salted)
+		}
+		_, issued, revoked := rec.Snapshot()
+		viol := ""
+		if state != "gone" && state != "sealed" {
+			viol = "!VIOL:token entry not revoked after its last use (a denied sys/seal): " + state + "#spent-token-not-revoked-after-denied-seal"
+		}
+		out.Op(fmt.Sprintf("%s|token:%s|leases:%d/%d%s", cl, state, len(issued), len(revoked), viol), "sealdenied", vh.I(int64(n)))
+		_ = c.Shutdown()
+	}
+}
+
 func TestVerifC19(t *testing.T) {
 	out := vh.Open()
 	defer out.Close()
 	rng := vh.NewRand(vh.Seed())
+	c19SealDenied(t, out)
 	cases := vh.EnvInt("VERIF_C19_CASES", 150)
 	if vh.Thorough() {
 		cases = vh.EnvInt("VERIF_C19_CASES", 1500)
